@@ -75,3 +75,77 @@ Example C17_example :
   label_map 5 (compute [5] (AdjGrid [false]) [Some 5; Some 1; None; Some 1; Some 4] (Some 0) [MinDelta 0; MinNpix 0 1])
   = [0; 0; -1; 1; 1].
 Proof. split; vm_compute; reflexivity. Qed.
+
+(* ------------------------------------------------------------------------------------------
+   Cyclic shifts.  Shifting by one along the outermost, periodic axis is an automorphism of
+   the wrap-around adjacency, in any number of dimensions, whatever the other axes are ... *)
+From Coq Require Import Lia.
+From Dendro Require Import PixelMap GridIso GridSym.
+
+Theorem C17_cyclic_shift_is_automorphism :
+  forall n r pr, allpos r -> 0 < n ->
+    giso (n :: r) (true :: pr) (n :: r) (true :: pr) (ghead (size r) (size r) (rot1 n) (fun p => p)).
+Proof. exact giso_rot1. Qed.
+Print Assumptions C17_cyclic_shift_is_automorphism.
+
+(* ... and so is a shift by ANY amount k along ANY periodic axis a (axis_ok: axis a has length
+   n and is periodic; the other axes are arbitrary) *)
+Theorem C17_shift_any_axis_any_amount :
+  forall k a shape per n, 0 < n -> axis_ok a shape shape per per n n true true ->
+    giso shape per shape per (axis_map a shape shape (iter_map k (rot1 n))).
+Proof.
+  intros k a shape per n Hn H.
+  exact (giso_axis_map a shape shape per per n n true true (iter_map k (rot1 n))
+           (sigma_ok_iter k n true (rot1 n) (sigma_ok_rot1 n Hn)) H).
+Qed.
+Print Assumptions C17_shift_any_axis_any_amount.
+
+(* the one-dimensional adjacency that decides it: on a non-periodic axis of length > 2 the
+   two ends are not adjacent, on a periodic axis they are *)
+Theorem C17_ends_adjacent_iff_periodic :
+  forall n b, 2 < n -> (adj1 n b (n - 1) 0 <-> b = true).
+Proof. intros n b Hn. unfold adj1. split; [intros H | intros ->]; intuition lia. Qed.
+
+(* distinct values: the hierarchy of the shifted data is the shifted hierarchy *)
+Theorem C17_shifted_hierarchy :
+  forall k a shape per n vals vals' minv cs,
+    0 < n -> axis_ok a shape shape per per n n true true ->
+    let g := axis_map a shape shape (iter_map k (rot1 n)) in
+    (forall pv, In pv (kept vals minv) -> inrange shape (fst pv)) ->
+    carried g (kept vals minv) (kept vals' minv) ->
+    (forall l, ~ In (Seeds l) cs) ->
+    NoDup (map snd (kept vals minv)) ->
+    rsim g (compute shape (AdjGrid per) vals minv cs) (compute shape (AdjGrid per) vals' minv cs).
+Proof.
+  intros k a shape per n vals vals' minv cs Hn H g. apply compute_relabelled.
+  apply C17_shift_any_axis_any_amount; assumption.
+Qed.
+Print Assumptions C17_shifted_hierarchy.
+
+(* ties: the same trunk regions (hence the same assigned pixels) on the shifted pixels *)
+Theorem C17_shifted_trunk_regions_with_ties :
+  forall k a shape per n vals vals' minv cs,
+    0 < n -> axis_ok a shape shape per per n n true true ->
+    let g := axis_map a shape shape (iter_map k (rot1 n)) in
+    (forall pv, In pv (kept vals minv) -> inrange shape (fst pv)) ->
+    carried g (kept vals minv) (kept vals' minv) ->
+    (forall l, ~ In (Seeds l) cs) ->
+    forall r' x', In r' (run (nbrs shape per) (indep_of cs) (order_of (kept vals' minv))) -> In x' (region r') ->
+    exists r0, In r0 (run (nbrs shape per) (indep_of cs) (order_of (kept vals minv))) /\
+               forall y', In y' (region r') <-> exists y, In y (region r0) /\ y' = g y.
+Proof.
+  intros k a shape per n vals vals' minv cs Hn H g Hrange Hc Hs.
+  apply (roots_relabelled shape shape per per g); try assumption.
+  - apply C17_shift_any_axis_any_amount; assumption.
+  - apply (axis_ok_allpos a shape shape per per n n true true Hn Hn H).
+Qed.
+Print Assumptions C17_shifted_trunk_regions_with_ties.
+
+(* non-vacuity: a 2 x 3 array, periodic along the inner axis, shifted by two along it *)
+Example C17_shift_example :
+  let g := axis_map 1 [2; 3] [2; 3] (iter_map 2 (rot1 3)) in
+  giso [2; 3] [false; true] [2; 3] [false; true] g /\ map g [0; 1; 2; 3; 4; 5] = [2; 0; 1; 5; 3; 4].
+Proof.
+  split; [|vm_compute; reflexivity]. apply C17_shift_any_axis_any_amount; [reflexivity|].
+  cbn. repeat split; try reflexivity. constructor.
+Qed.
